@@ -863,3 +863,201 @@ PROPS["C02"] = {
                     "relu is differentiated with the convention 0 at 0"],
     "dual": True,
 }
+
+
+# ======================================================================================
+# C03 gradient shapes, broadcast contributions summed
+
+def flatten_py(vals, dims, target):
+    """sum of [vals] (row-major, [dims]) over the positions broadcasting reads a [target] element from"""
+    out = [0.0] * prod(target)
+    pad = [1] * (len(dims) - len(target)) + list(target)
+    for pos, idx in enumerate(itertools.product(*[range(d) for d in dims])):
+        j = 0
+        for i, t in zip(idx, pad):
+            j = j * t + (0 if t == 1 else i)
+        out[j] += vals[pos]
+    return out
+
+
+def gen_C03(tier, rng):
+    cases = []
+    shapes = all_shapes(3 if tier == "quick" else 4, 3)
+    pairs = [(x, y) for x in shapes for y in shapes if bcompat(x, y) and x != y]
+    if tier == "quick":
+        pairs = [p for i, p in enumerate(pairs) if i % 2 == 0]
+    for n, (x, y) in enumerate(pairs):
+        out = bshape(x, y)
+        for uses in (1, 2, 3):
+            if tier == "quick" and (n + uses) % 3 == 0:
+                continue
+            b = randprog.Builder(rng, exact=True)
+            big = b.leaf(x, tracked=True)
+            small = b.leaf(y, tracked=True)
+            kinds = [("add",), ("mul",), ("sub",)]
+            terms = []
+            for u in range(uses):
+                k = kinds[(n + u) % 3] if uses > 1 else kinds[n % 3]
+                other = big if u == 0 else b.leaf(x, tracked=rng.random() < 0.5)
+                args = [other, small] if (u + n) % 2 == 0 else [small, other]
+                terms.append(b.result(k, args, out, False, True, 0))
+            root = terms[0]
+            for t in terms[1:]:
+                root = b.result(("add",), [root, t], out, False, True, 0)
+            seed = b.seed_for(root, "int")
+            c = graph_case("bcast", b, root, seed, "uses%d:rank%d_%d" % (uses, len(x), len(y)))
+            if uses == 1 and kinds[n % 3][0] == "add":
+                c["expect_grad"] = {small.idx: flatten_py(seed[1], out, y), big.idx: flatten_py(seed[1], out, x)}
+            # a second pass must add the same gradient again, still in the array's own shape
+            if n % 4 == 0:
+                base = len(c["instrs"])
+                c["instrs"].append(("backward", root.idx, seed))
+                for j, leaf in enumerate(sorted(c["grads"])):
+                    c["instrs"].append(("grad", leaf))
+                    c["adjudicate"].append(base + 1 + j)
+                    c.setdefault("grads2", {})[leaf] = base + 1 + j
+            cases.append(c)
+    # broadcasting inside matmul (bias, leading dims) and conv bias
+    for _ in range(120 if tier == "quick" else 1500):
+        b = randprog.Builder(rng, exact=True, ops=[("matmul", 3), ("add", 2), ("mul", 2), ("sum", 1), ("conv", 1)])
+        root = b.build(rng.randint(2, 5))
+        cases.append(graph_case("bcast_random", b, root, b.seed_for(root, "int"), "random"))
+    return cases
+
+
+def post_grad_dims(cases, rust, model):
+    """the property's own predicate on corgi's output: a stored gradient has its array's dimensions;
+    for the plain broadcast add it is the seed summed over the broadcast positions"""
+    fails = []
+    n = 0
+    for i, (c, r) in enumerate(zip(cases, rust)):
+        if "grads" not in c or any(o == "panic" for o in r):
+            continue
+        for key in ("grads", "grads2"):
+            for leaf, gi in c.get(key, {}).items():
+                ob = r[gi]
+                if ob and ob[0][0] == 4:
+                    n += 1
+                    if list(ob[0][1]) != list(c["leaves"][leaf][1]):
+                        fails.append({"case": i, "confirmed": True,
+                                      "reason": "gradient of variable %d has dimensions %s, the array has %s"
+                                                % (leaf, ob[0][1], c["leaves"][leaf][1])})
+                    exp = c.get("expect_grad", {}).get(leaf)
+                    if exp is not None and key == "grads" and list(ob[0][2]) != exp:
+                        fails.append({"case": i, "confirmed": True,
+                                      "reason": "gradient of variable %d is %s, the seed summed over the broadcast "
+                                                "positions is %s" % (leaf, ob[0][2], exp)})
+    return fails, n
+
+
+POST["grad_dims"] = post_grad_dims
+
+PROPS["C03"] = {
+    "gen": gen_C03,
+    "rule": "every ordered pair of distinct broadcast-compatible shapes (rank <= 3 quick / <= 4 thorough, dimensions "
+            "<= 3; quick keeps every second pair) with the broadcast operand used 1, 2 and 3 times in one graph through "
+            "add / mul / sub on either side, integer data and integer seeds, a repeated pass on a quarter of the cases, "
+            "plus seeded random graphs over matmul (additive term, leading dimensions), conv and element-wise ops; "
+            "adjudicated: gradient dimensions and values of every leaf (exact); the dimension predicate and, for the "
+            "plain broadcast add, the summed seed are also evaluated directly on corgi's output; distinct = distinct "
+            "program text",
+    "exhaustive": {"quick": False, "thorough": True},
+    "assumptions": [],
+    "post": ["grad_dims"],
+}
+
+
+# ======================================================================================
+# C13 gradient-descent update
+
+def gen_C13(tier, rng):
+    cases = []
+    pool = [[1], [2], [3], [2, 2], [1, 3], [3, 1], [2, 3], [2, 1, 2], [4], [1, 1], [2, 2, 2]]
+    count = 700 if tier == "quick" else 8000
+    k = 0
+    for n in (1, 2, 3, 4, 5):
+        subsets = list(itertools.product((False, True), repeat=n))
+        reps = max(1, count // (5 * len(subsets)))
+        for sub in subsets:
+            for _ in range(reps):
+                k += 1
+                exact = k % 3 != 0
+                lr = rng.choice([0.5, 0.25, 2.0, 1.0, 0.125]) if exact else rng.uniform(0.001, 1.5)
+                same = rng.random() < 0.4
+                s0 = rng.choice(pool)
+                dims = [s0 if same else rng.choice(pool) for _ in range(n)]
+                ins = []
+                params = []
+                for d in dims:
+                    vals = rvals(rng, prod(d), exact)
+                    ins.append(("leaf", True, d, vals))
+                    params.append(len(ins) - 1)
+                rounds = rng.choice([1, 1, 2, 3])
+                expect = []
+                cur = [list(i[3]) for i in ins]
+                for rd in range(rounds):
+                    hold = sub if rd == 0 else tuple(rng.random() < 0.6 for _ in range(n))
+                    grads = []
+                    for p, d, h in zip(params, dims, hold):
+                        if h:
+                            g = rvals(rng, prod(d), exact)
+                            ins.append(("backward", p, (d, g)))
+                            grads.append(g)
+                            if rng.random() < 0.15:      # accumulate a second contribution
+                                g2 = rvals(rng, prod(d), exact)
+                                ins.append(("backward", p, (d, g2)))
+                                grads[-1] = [a + b2 for a, b2 in zip(g, g2)]
+                        else:
+                            grads.append(None)
+                    order = list(range(n))
+                    if rng.random() < 0.3:
+                        rng.shuffle(order)
+                    ins.append(("update", lr, [params[j] for j in order]))
+                    for j in range(n):
+                        if grads[j] is not None:
+                            cur[j] = [x - lr * g for x, g in zip(cur[j], grads[j])]
+                    for j in range(n):
+                        ins.append(("obs", params[j]))
+                        expect.append((len(ins) - 1, dims[j], list(cur[j])))
+                c = case("gd", ins, "params%d:%s" % (n, "same_shape" if same else "mixed"))
+                c["gd_expect"] = expect
+                cases.append(c)
+    return cases
+
+
+def post_gd_spec(cases, rust, model):
+    """the property evaluated on corgi's output: new = old - lr * g element by element, tracked, no gradient"""
+    fails = []
+    n = 0
+    for i, (c, r) in enumerate(zip(cases, rust)):
+        if "gd_expect" not in c:
+            continue
+        for at, dims, vals in c["gd_expect"]:
+            if at >= len(r) or r[at] == "panic":
+                fails.append({"case": i, "confirmed": True, "reason": "update or observation panicked"})
+                break
+            n += 1
+            arr, grad = r[at][0], r[at][1]
+            if arr[1][0] != 1 or list(arr[1][1:]) != list(dims) or list(arr[2]) != list(vals) or grad[0] != 3:
+                fails.append({"case": i, "confirmed": True,
+                              "reason": "parameter observed at instruction %d is %s with gradient %s; the update "
+                                        "rule gives tracked dims %s values %s and no gradient"
+                                        % (at, arr, grad, dims, vals)})
+                break
+    return fails, n
+
+
+POST["gd_spec"] = post_gd_spec
+
+PROPS["C13"] = {
+    "gen": gen_C13,
+    "rule": "parameter lists of 1-5 tracked arrays with shapes drawn from a pool of 11 (all equal or mixed), every "
+            "subset holding a gradient (deposited by backward(seed) on the parameter itself, sometimes twice), dyadic "
+            "learning rates with integer data and random floats otherwise, parameters passed in list or shuffled order, "
+            "1-3 rounds of deposit/update; after each update every parameter's tracking flag, dimensions, values and "
+            "gradient are observed and compared with the model and with old - lr*g computed here (bitwise); distinct = "
+            "distinct program text",
+    "exhaustive": {"quick": False, "thorough": False},
+    "assumptions": ["gradients have their parameter's dimensions (guaranteed by C03 for gradients produced by backward)"],
+    "post": ["gd_spec"],
+}
